@@ -160,21 +160,53 @@ def request_path_frames(v):
                 assigned.setdefault(n.targets[0].id, ast.unparse(n.value))
             if isinstance(n, ast.AnnAssign) and isinstance(n.target, ast.Name) and n.value is not None:
                 assigned.setdefault(n.target.id, ast.unparse(n.value))
-        v.check('request-object-is-created-per-call:' + target, assigned.get('req', '').startswith('self._request_type('))
-        v.check('response-object-is-created-per-call:' + target, assigned.get('resp', '').startswith('self._response_type('))
-        v.check('params-dict-is-created-per-call:' + target, assigned.get('params') == '{}')
-        v.check('dependent-response-stack-is-created-per-call:' + target, assigned.get('dependent_mw_resp_stack') == '[]')
-    # the lazy compile writes router state only inside the lock
-    fn = _fn_node(v, CR + '._compile_and_find')
-    writes_outside = []
-    for stmt in fn.body:
-        if isinstance(stmt, ast.With):
-            continue
-        mod = ast.Module(body=[stmt], type_ignores=[])
-        writes_outside.extend(shared_writes(mod))
-    v.check('router-state-written-only-inside-the-compile-lock', not writes_outside, writes=writes_outside)
-    with_stmts = [s for s in fn.body if isinstance(s, ast.With)]
-    v.check('compile-is-guarded-by-self._compile_lock', len(with_stmts) == 1 and ast.unparse(with_stmts[0].items[0].context_expr) == 'self._compile_lock')
+        def fresh(name, kinds):
+            # "created per call": bound, inside __call__, to a display / constructor call that allocates a new object on every evaluation
+            src = assigned.get(name, '')
+            return any(src == k or (k.endswith('(') and src.startswith(k)) for k in kinds)
+
+        v.check('request-object-is-created-per-call:' + target, fresh('req', ['self._request_type(']))
+        v.check('response-object-is-created-per-call:' + target, fresh('resp', ['self._response_type(']))
+        v.check('params-dict-is-created-per-call:' + target, fresh('params', ['{}', 'dict()']))
+        v.check('dependent-response-stack-is-created-per-call:' + target, fresh('dependent_mw_resp_stack', ['[]', 'list()', 'deque()', 'collections.deque()']))
+    # the lazy compile writes router state only inside the lock -- decided over _compile_and_find AND the private methods it calls on self
+    # (so that moving the lock / re-check / compile into a helper method is neither missed nor reported): interprocedural, lexical lock scope
+    tree = v.index.module(RM)[0]
+    cls = next(n for n in tree.body if isinstance(n, ast.ClassDef) and n.name == 'CompiledRouter')
+    methods = {n.name: n for n in cls.body if isinstance(n, (ast.FunctionDef, ast.AsyncFunctionDef))}
+    v.registry_touch(v.index.find(RM, 'CompiledRouter._compile_and_find'))
+    unlocked_writes, compile_calls, seen = [], [], set()
+
+    def is_lock(w):
+        return any(ast.unparse(it.context_expr) == 'self._compile_lock' for it in w.items)
+
+    def visit(node, locked, owner):
+        if isinstance(node, (ast.FunctionDef, ast.AsyncFunctionDef, ast.Lambda, ast.ClassDef)) and node is not methods.get(owner):
+            return
+        if isinstance(node, (ast.With, ast.AsyncWith)) and is_lock(node):
+            for it in node.items:
+                visit(it.context_expr, locked, owner)
+            for st in node.body:
+                visit(st, True, owner)
+            return
+        if isinstance(node, (ast.Assign, ast.AugAssign, ast.AnnAssign, ast.Delete)) and not locked:
+            unlocked_writes.extend('%s: %s' % (owner, w) for w in shared_writes(ast.Module(body=[node], type_ignores=[])))
+        if isinstance(node, ast.Call) and isinstance(node.func, ast.Attribute) and isinstance(node.func.value, ast.Name) and node.func.value.id == 'self':
+            callee = node.func.attr
+            if callee == '_compile':
+                compile_calls.append((owner, locked))
+            elif callee in methods and (callee, locked) not in seen:
+                seen.add((callee, locked))
+                for st in methods[callee].body:
+                    visit(st, locked, callee)
+        for ch in ast.iter_child_nodes(node):
+            visit(ch, locked, owner)
+
+    seen.add(('_compile_and_find', False))
+    for st in methods['_compile_and_find'].body:
+        visit(st, False, '_compile_and_find')
+    v.check('router-state-written-only-inside-the-compile-lock', not unlocked_writes, writes=unlocked_writes)
+    v.check('compile-is-guarded-by-self._compile_lock', len(compile_calls) >= 1 and all(lk for _, lk in compile_calls), calls=compile_calls)
 
 
 PER_REQUEST_CLASSES = [
